@@ -320,6 +320,52 @@ var failingMembers = []struct {
 	{"NaN", math.NaN()}, {"chan", make(chan int)}, {"failing Marshaler", jgen.ErrM{A: 1}}, {"invalid RawMessage", stdjson.RawMessage(`{"a":}`)}, {"invalid Number", stdjson.Number("1x")}, {"+Inf in a slice", []any{1, math.Inf(1)}},
 }
 
+// ---- values that share memory without being cyclic, deep enough for the cycle bookkeeping to be active
+
+func deepSharedFlags(c *explore.Ctx) {
+	sh := c01.SharedShapes[c.Choose(len(c01.SharedShapes))]
+	depth := []int{0, 999, 1000, 1001, 1100}[c.Choose(5)]
+	wrap := c.Choose(3)
+	v := sh.Mk()
+	for i := 0; i < depth; i++ {
+		switch wrap {
+		case 0:
+			v = []any{v}
+		case 1:
+			v = map[string]any{"k": v}
+		case 2:
+			x := v
+			v = &x
+		}
+	}
+	var base []byte
+	var baseErr error
+	for m := 0; m < 8; m++ {
+		fl := json.AppendFlags(m)
+		if fl&json.TrustRawMessage != 0 {
+			continue
+		}
+		var b []byte
+		var err error
+		if pv, ps := explore.Catch(func() { b, err = json.Append(nil, v, fl) }); pv != nil {
+			c.Fail("deep-shared:panic:"+ps, "Append(flags %03b) panics for a %s under %d levels: %v", m, sh.Name, depth, pv)
+			return
+		}
+		if m == 0 {
+			base, baseErr = b, err
+			continue
+		}
+		if (err == nil) != (baseErr == nil) {
+			c.Fail(fmt.Sprintf("deep-shared:error-depends-on-flags:%03b", m), "Append of a %s under %d levels (wrapper %d): flags %03b give error %v, flags 000 give %v", sh.Name, depth, wrap, m, err, baseErr)
+		} else if err == nil && len(b) != len(base) {
+			c.Fail(fmt.Sprintf("deep-shared:length-depends-on-flags:%03b", m), "Append of a %s under %d levels: %d bytes with flags %03b, %d with flags 000", sh.Name, depth, len(b), m, len(base))
+		}
+	}
+	c.NontrivialStr("deepshared", sh.Name, fmt.Sprint(depth, wrap))
+	c.Outcome(fmt.Sprintf("err=%v", baseErr != nil))
+	c.Case(map[string]any{"value": sh.Name, "levels": depth, "wrapper": wrap})
+}
+
 func failingValues(c *explore.Ctx) {
 	fm := failingMembers[c.Choose(len(failingMembers))]
 	shape := c.Choose(6)
@@ -616,6 +662,7 @@ func Spec() *explore.Spec {
 		ID: "C14",
 		Families: []*explore.Family{
 			{Name: "append-flags", ShardDepth: 1, Body: appendFlags, Doc: "~500 (thorough: ~3500, all of C01's depth-2 universe) type shapes (all specialised and generic maps with 0/1/2/many entries, RawMessage valid/compact/whitespace/invalid, Number, any, marshalers that fail, HTML-sensitive keys) x boundary values x all 8 AppendFlags subsets (TrustRawMessage only for valid raws): error iff default flags error, valid JSON, same generic value as the default output, bytes equal to the standard Encoder with SetEscapeHTML(false), unsorted output of the same length, Encoder setters equivalent; every output parsed back with all 16 subsets of the non-semantic ParseFlags and compared with the original (for values encoding/json round-trips)"},
+			{Name: "deep-shared", ShardDepth: 2, Body: deepSharedFlags, Doc: "6 values that share memory without being cyclic (the same map / pointer / slice reached twice, views of one array) under 0, 999..1001, 1100 levels of []any / map / pointer nesting x the AppendFlags subsets: an error for one subset iff an error for all (the cycle bookkeeping starts at depth 1000), same length"},
 			{Name: "failing-values", ShardDepth: 2, Body: failingValues, Doc: "values one of whose members cannot be encoded (NaN, channel, failing Marshaler, invalid RawMessage / Number) inside maps of 2-5 entries, nested maps, slices and structs x all 8 AppendFlags subsets, each encoded 12 times (map iteration order is the runtime's): an error for every flag subset, and the destination prefix is kept"},
 			{Name: "number-kinds", ShardDepth: 2, Body: numberKinds, Doc: "23 number literals at every int64/uint64 boundary and beyond x {bare, in array, in object} x all 512 ParseFlags subsets: dynamic type per the documented precedence, numeric value preserved exactly (big.Float)"},
 			{Name: "decoder-setters", ShardDepth: 2, Body: decoderSetters, Doc: "every history of 0-3 calls of the 7 Decoder setters followed by 4 documents (unknown member, lower-case keys, numbers, raw message, strings) decoded into a struct with Number / RawMessage / any fields: error presence and value equal Parse with the union of the selected flags"},
